@@ -205,7 +205,7 @@ _STATEMENT = ('ProvideLiquidity (%s) with an unlocking duration, for every lock 
               'weight(shares), other users and the pool manager gain none; no temporary buffer is left')
 _COVERS = ['ok:new_auto', 'ok:new_explicit', 'ok:own']
 
-for _pid, _prefix in (('C14', 'L1'), ('C08', 'S5'), ('C10', 'S3'), ('C01', 'S2'), ('C20', 'F4'), ('C05', 'S2')):
+for _pid, _prefix in (('C14', 'L1'), ('C08', 'S5'), ('C10', 'S3'), ('C01', 'S2'), ('C20', 'F4'), ('C05', 'S2'), ('C15', 'L1')):
     for _kind in ('both', 'single'):
         obligation(_pid, '%s.locked_deposit_%s_assets' % (_prefix, _kind),
                    entries=['pool-manager::execute', 'provide_liquidity', 'pool-manager::reply', 'farm-manager::execute', 'create_position', 'expand_position',
